@@ -154,6 +154,7 @@ func Fixed() []Named {
 		Named{"result-slice", []flyt.Result{flyt.NewResult("a"), flyt.NewResult(2), flyt.NewResult(nil)}}, Named{"result-slice-empty", []flyt.Result{}},
 		Named{"result-slice-with-error", []flyt.Result{flyt.NewResult(1), flyt.NewErrorResult(fmt.Errorf("an item that failed earlier"))}},
 		Named{"shared-store-pointer", flyt.NewSharedStore()},
+		Named{"func-returning-any", func() any { return 42 }}, Named{"func-returning-any-and-error", func() (any, error) { return 1, nil }},
 		Named{"array-int-3", [3]int{1, 2, 3}}, Named{"array-byte-16", [16]byte{1, 2, 3}}, Named{"array-string-0", [0]string{}}, Named{"array-any-2", [2]any{"x", 1}},
 	)
 	return out
